@@ -7,3 +7,43 @@ Theorem C05_law_checker_sound :
   forall (sc : scene) (l : law), check_scene sc l = true ->
   forall p, scene_clear sc p -> eval_law l (member sc p) = true.
 Proof. exact check_scene_sound. Qed.
+
+From Coq Require Import ZArith.
+From GB Require Import Num Event Outcome Fields FieldsProofs TableLaws.
+Local Open Scope Z_scope.
+
+(** pointwise: the three pieces are mutually exclusive, their disjunction is the union, and
+    xor is the two differences *)
+Theorem C05_ops_pointwise :
+  forall a b : bool,
+  (sem Intersection a b && sem Difference a b = false)%bool
+  /\ (sem Intersection a b && sem Difference b a = false)%bool
+  /\ (sem Difference a b && sem Difference b a = false)%bool
+  /\ (sem Union a b = sem Intersection a b || sem Difference a b || sem Difference b a)%bool
+  /\ (sem Xor a b = sem Difference a b || sem Difference b a)%bool.
+Proof. exact ops_pointwise. Qed.
+
+(** the same laws at the level of the selection tables of compute_fields.rs, for EVERY flag
+    assignment, edge type and operand role: the signed change of the result across a
+    sub-segment (OutIn = +1, InOut = -1, not selected = 0) is additive over the partition.
+    [swapped e e']: [e'] is the image of the sub-segment in the call computing B-A. *)
+Theorem C05_tables_partition :
+  forall (N : Num) (cfg : config) (e e' : event N),
+  c_f1 cfg = true -> swapped e e' ->
+  delta (table cfg e Union)
+  = delta (table cfg e Intersection) + delta (table cfg e Difference) + delta (table cfg e' Difference)
+  /\ delta (table cfg e Xor) = delta (table cfg e Difference) + delta (table cfg e' Difference).
+Proof. exact tables_partition. Qed.
+
+Theorem C05_tables_pieces_exclusive :
+  forall (N : Num) (cfg : config) (e e' : event N),
+  c_f1 cfg = true -> swapped e e' ->
+  -1 <= delta (table cfg e Intersection) + delta (table cfg e Difference) + delta (table cfg e' Difference) <= 1.
+Proof. exact tables_pieces_exclusive. Qed.
+
+(** the pinned tables (defect F1) violate the partition law *)
+Theorem C05_pinned_tables_refuted :
+  forall N : Num, exists e e' : event N, swapped e e' /\
+  delta (table pinned e Union)
+  <> delta (table pinned e Intersection) + delta (table pinned e Difference) + delta (table pinned e' Difference).
+Proof. exact tables_partition_pinned_refuted. Qed.
